@@ -23,10 +23,16 @@ harness error (hidden state outside `canon`, or an unfaithful clone) and raises.
 The number of histories validated this way is counted in ctx.traces.
 """
 import collections
+import hashlib
 
 
 class ReplayDivergence(RuntimeError):
     pass
+
+
+def stable_hash(k):
+    """64-bit digest of a canonical state (Python's hash() collides on -1.0 / -2.0 and is salted for str)."""
+    return int.from_bytes(hashlib.blake2b(repr(k).encode(), digest_size=8).digest(), "big")
 
 
 def rebuild(make_root, apply_event, hist):
@@ -36,7 +42,7 @@ def rebuild(make_root, apply_event, hist):
     return obj
 
 
-def bfs(ctx, make_root, events, apply_event, clone, canon, check, depth, prefix=(), hasher=hash):
+def bfs(ctx, make_root, events, apply_event, clone, canon, check, depth, prefix=(), hasher=stable_hash):
     root = rebuild(make_root, apply_event, prefix)
     k0 = canon(root)
     seen = {k0}
